@@ -105,4 +105,126 @@ theorem c01_value_any (h : Heap) (c : Nat) (std : StdNames h c) (v : Value) (hr 
           rw [h1] at h1'; cases h1'
           exact ⟨v', h2', uriEq_vEq h3'⟩⟩
 
+/-! ### decoded arguments stand for the stored pairs -/
+
+theorem vEq_trans {a b c : Value} (h1 : vEq a b) (h2 : vEq b c) : vEq a c := by
+  cases a <;> cases b <;> simp_all [vEq] <;> cases c <;> simp_all [vEq]
+
+/-- an argument of a non-PROV attribute whose value converts (in every manager) to something equal to `v` up to prefixes -/
+theorem argFor_other (a a' : QName) (hu : a'.uri = a.uri) (hnp : isProvAttr a = false) (v : Value) (val : ArgVal)
+    (flt : Option FloatAtom)
+    (hconv : ∀ m : NsMgr, m.Inv1 → ∃ v', (autoLiteral m val flt).2 = .ok v' ∧ vEq v' v) :
+    ArgFor ⟨.qn a', val, flt⟩ a v := by
+  intro par isColl m r hm
+  have hu1 := NsMgr.validQ_uri hm a'
+  have hm1 := NsMgr.validQ_inv1 hm a'
+  obtain ⟨v', hv', heq⟩ := hconv (m.validQ a').1 hm1
+  have hnp' : isProvAttr (m.validQ a').2 = false := by rw [isProvAttr_congr (hu1.trans hu)]; exact hnp
+  have href : isRefAttr (m.validQ a').2 = false := by
+    simp only [isProvAttr, Bool.or_eq_false_iff] at hnp'; exact hnp'.1
+  have htime : isTimeAttr (m.validQ a').2 = false := by
+    simp only [isProvAttr, Bool.or_eq_false_iff] at hnp'; exact hnp'.2
+  refine ⟨(autoLiteral (m.validQ a').1 val flt).1, (m.validQ a').2, v', autoLiteral_inv1 _ hm1 _ _, hu1.trans hu, heq, ?_⟩
+  cases hval : val with
+  | nil => rw [hval] at hv'; simp [autoLiteral] at hv'
+  | val x => subst hval; simp [addOne, NsMgr.validName, convValue, href, htime, hv']
+  | recId x => subst hval; simp [addOne, NsMgr.validName, convValue, href, htime, hv']
+
+/-- an argument of a PROV attribute: the decoded name/time under a name with the attribute's URI -/
+theorem argFor_formal (a a' : QName) (hu : a'.uri = a.uri) (v v0 : Value) (hok : PairOk a v0) (heq : vEq v0 v) :
+    ArgFor ⟨.qn a', .val v0, none⟩ a v := by
+  intro par isColl m r hm
+  obtain ⟨m', a'', v', hm', hu', hv', hstep⟩ :=
+    Prov.C08.addOne_general par isColl m hm r a' v0 (pairOk_congr hu.symm hok)
+  exact ⟨m', a'', v', hm', hu'.trans hu, vEq_trans hv' heq, hstep⟩
+
+/-! ### the writer's loop over one record -/
+
+/-- the loop body of `encodeJsonRecord` -/
+def encStep (acc : Option (List (String × JVal))) (p : QName × List Value) : Option (List (String × JVal)) :=
+  match acc with
+  | none => none
+  | some kvs =>
+    match p.2 with
+    | [] => some kvs
+    | v :: more =>
+      if isRefAttr p.1 then
+        (formalText false v).map (fun s => jsonObjSet kvs p.1.print (.str s))
+      else if isTimeAttr p.1 then
+        (formalText true v).map (fun s => jsonObjSet kvs p.1.print (.str s))
+      else if more.isEmpty then some (jsonObjSet kvs p.1.print (encodeJsonValue v))
+      else some (jsonObjSet kvs p.1.print (.arr ((v :: more).map encodeJsonValue)))
+
+theorem encodeJsonRecord_eq (r : Record) : encodeJsonRecord r = (r.attrs.foldl encStep (some [])).map JVal.obj := rfl
+
+/-- the JSON value written for attribute `a` holding `v :: more` -/
+def jvalOf (a : QName) (v : Value) (more : List Value) : JVal :=
+  if isRefAttr a then .str ((formalText false v).getD "")
+  else if isTimeAttr a then .str ((formalText true v).getD "")
+  else if more.isEmpty then encodeJsonValue v
+  else .arr ((v :: more).map encodeJsonValue)
+
+def entryOf (p : QName × List Value) : List (String × JVal) :=
+  match p.2 with
+  | [] => []
+  | v :: more => [(p.1.print, jvalOf p.1 v more)]
+
+/-- PROV attributes hold what the writer can print (a name, resp. a time) -/
+def FormalOk (p : QName × List Value) : Prop :=
+  ∀ v more, p.2 = v :: more →
+    (isRefAttr p.1 = true → (formalText false v).isSome) ∧
+    (isRefAttr p.1 = false → isTimeAttr p.1 = true → (formalText true v).isSome)
+
+theorem jsonObjSet_new (kvs : List (String × JVal)) (k : String) (v : JVal) (h : ∀ e ∈ kvs, e.1 ≠ k) :
+    jsonObjSet kvs k v = kvs ++ [(k, v)] := by
+  induction kvs with
+  | nil => rfl
+  | cons e rest ih =>
+    obtain ⟨k', v'⟩ := e
+    have hne : k' ≠ k := h (k', v') List.mem_cons_self
+    simp only [jsonObjSet, beq_iff_eq, hne, if_false, List.cons_append]
+    rw [ih (fun e he => h e (List.mem_cons_of_mem _ he))]
+
+theorem encStep_entry (kvs : List (String × JVal)) (p : QName × List Value) (hf : FormalOk p)
+    (hnew : ∀ e ∈ kvs, e.1 ≠ p.1.print) : encStep (some kvs) p = some (kvs ++ entryOf p) := by
+  obtain ⟨a, vs⟩ := p
+  cases vs with
+  | nil => simp [encStep, entryOf]
+  | cons v more =>
+    obtain ⟨h1, h2⟩ := hf v more rfl
+    simp only [encStep, entryOf, jvalOf]
+    by_cases href : isRefAttr a = true
+    · obtain ⟨s, hs⟩ := Option.isSome_iff_exists.mp (h1 href)
+      simp [href, hs, jsonObjSet_new kvs a.print _ hnew]
+    · have href' : isRefAttr a = false := by simpa using href
+      by_cases ht : isTimeAttr a = true
+      · obtain ⟨s, hs⟩ := Option.isSome_iff_exists.mp (h2 href' ht)
+        simp [href', ht, hs, jsonObjSet_new kvs a.print _ hnew]
+      · have ht' : isTimeAttr a = false := by simpa using ht
+        by_cases hm : more.isEmpty = true
+        · simp [href', ht', hm, jsonObjSet_new kvs a.print _ hnew]
+        · simp [href', ht', hm, jsonObjSet_new kvs a.print _ hnew]
+
+theorem entryOf_keys (p : QName × List Value) : ∀ e ∈ entryOf p, e.1 = p.1.print := by
+  obtain ⟨a, vs⟩ := p
+  cases vs <;> simp [entryOf]
+
+/-- **the writer's object**: one member per non-empty attribute, in attribute order, when print forms are distinct -/
+theorem enc_fold (attrs : List (QName × List Value)) (kvs : List (String × JVal))
+    (hf : ∀ p ∈ attrs, FormalOk p)
+    (hnew : ∀ e ∈ kvs, ∀ p ∈ attrs, e.1 ≠ p.1.print)
+    (hd : attrs.Pairwise (fun p q => p.1.print ≠ q.1.print)) :
+    attrs.foldl encStep (some kvs) = some (kvs ++ attrs.flatMap entryOf) := by
+  induction attrs generalizing kvs with
+  | nil => simp
+  | cons p rest ih =>
+    have hd' := List.pairwise_cons.mp hd
+    rw [List.foldl_cons, encStep_entry kvs p (hf p List.mem_cons_self) (fun e he => hnew e he p List.mem_cons_self)]
+    rw [ih (kvs ++ entryOf p) (fun q hq => hf q (List.mem_cons_of_mem _ hq)) ?_ hd'.2]
+    · simp [List.flatMap_cons]
+    · intro e he q hq
+      rcases List.mem_append.mp he with h | h
+      · exact hnew e h q (List.mem_cons_of_mem _ hq)
+      · rw [entryOf_keys p e h]; exact hd'.1 q hq
+
 end Prov.C01
